@@ -929,6 +929,8 @@ func (f *FnEnc) call(c *ssa.CallCommon, v ssa.Value, pos token.Pos) Val {
 	}
 	if spec != nil && !(spec.Inline && len(callee.Blocks) > 0) {
 		hasRecv := callee.Signature.Recv() != nil
+		f.applyCallee, f.applyCall = callee, c
+		defer func() { f.applyCallee, f.applyCall = nil, nil }()
 		return f.applyContract(spec, callee.Signature, name, args, c.Args, hasRecv, hint, pos)
 	}
 	if inRepo(callee) && len(callee.Blocks) > 0 && f.canInline(callee) {
@@ -943,7 +945,7 @@ func (f *FnEnc) call(c *ssa.CallCommon, v ssa.Value, pos token.Pos) Val {
 		// components this function's contract declares preserved across this callee are kept: the
 		// declaration is checked by its own obligations (one per writing instruction, see
 		// preserveObligations), every other obligation may rely on it
-		if f.top && f.spec != nil && !ws.all {
+		if f.top && f.spec != nil && (!ws.all || (ws.allBut != nil && !ws.allPlain)) {
 			for _, pv := range f.spec.Preserves {
 				for _, cn := range pv.Callees {
 					if cn == fnDisplayName(callee) {
@@ -1285,9 +1287,21 @@ func (f *FnEnc) applyContract(spec *FuncSpec, sig *types.Signature, name string,
 		}
 	}
 	short := strings.ReplaceAll(name, modPath+"/", "")
+	assumedPre := false
+	if f.top && f.spec != nil {
+		for _, cn := range f.spec.AssumesPre {
+			if cn == strings.ReplaceAll(name, modPath+"/", "") {
+				assumedPre = true
+			}
+		}
+	}
 	for i, c := range spec.Requires {
 		g := f.evalClauseSafe(ctx, c)
-		f.addObl("pre", short+"/"+clauseLabel(c, i)+"@"+f.srcAt(pos), g, pos, nil, c.Src)
+		if assumedPre {
+			e.abstracted[fnDisplayName(f.fn)+": ASSUMED precondition of "+short+" ("+clauseLabel(c, i)+") at its call site (assumes-pre)"] = true
+		} else {
+			f.addObl("pre", short+"/"+clauseLabel(c, i)+"@"+f.srcAt(pos), g, pos, nil, c.Src)
+		}
 		f.assume(g)
 	}
 	for i, c := range spec.Needs {
@@ -1325,7 +1339,18 @@ func (f *FnEnc) applyContract(spec *FuncSpec, sig *types.Signature, name string,
 	_ = oldAlloc
 	// frame
 	if !spec.HasAssigns {
-		f.st = f.havocWrites(writeSet{all: true})
+		// no assigns clause: the callee may write whatever its body (transitively) writes - when the
+		// body is at hand that bounds the havoc, otherwise everything
+		ws := writeSet{all: true}
+		if cal := f.applyCallee; cal != nil && !spec.Trusted && inRepo(cal) && len(cal.Blocks) > 0 {
+			ws2 := writeSet{names: map[string]bool{}}
+			e.funcWrites(cal, f.applyCall, &ws2, 0, map[*ssa.Function]bool{})
+			if f.applyCall != nil {
+				f.argAliasWrites(args, f.applyCall, &ws2)
+			}
+			ws = ws2
+		}
+		f.st = f.havocWrites(ws)
 	} else {
 		actx := &SpecCtx{e: e, f: f, vars: post, st: pre, old: pre, pkg: f.pkgOf(spec), srcArgs: ctx.srcArgs}
 		for _, tg := range f.assignTargets(spec, actx) {
@@ -2351,17 +2376,21 @@ func expandComp(c string) string {
 	for _, pfx := range []string{"F ", "C "} {
 		if strings.HasPrefix(c, pfx) {
 			rest := c[len(pfx):]
-			first := rest
-			if i := strings.IndexAny(rest, "/ "); i >= 0 {
-				first = rest[:i]
+			star := ""
+			for strings.HasPrefix(rest, "*") {
+				star += "*"
+				rest = rest[1:]
 			}
-			if !strings.Contains(first, ".") || strings.HasPrefix(rest, "core/") {
-				if !strings.HasPrefix(rest, modPath) {
-					star := ""
-					for strings.HasPrefix(rest, "*") {
-						star += "*"
-						rest = rest[1:]
-					}
+			if strings.HasPrefix(rest, modPath) {
+				return c
+			}
+			// package path = everything up to the last "." of the first token
+			tok := rest
+			if i := strings.Index(rest, " "); i >= 0 {
+				tok = rest[:i]
+			}
+			if j := strings.LastIndex(tok, "."); j > 0 {
+				if expandProgram != nil && expandProgram.ByPath[modPath+"/"+tok[:j]] != nil {
 					return pfx + star + modPath + "/" + rest
 				}
 			}
@@ -2369,6 +2398,9 @@ func expandComp(c string) string {
 	}
 	return c
 }
+
+// expandProgram: the loaded program (to tell packages of this module from others in short names).
+var expandProgram *Program
 
 // preserveObligations: one obligation per instruction that writes a preserved component
 // (transitively, non-freshly) under a listed callee; none found = one discharged obligation.
@@ -2406,7 +2438,18 @@ func preserveObligations(e *Enc, fn *ssa.Function, fs *FuncSpec) {
 				e.callWrites(&call.Call, &ws, 0, map[*ssa.Function]bool{})
 				e.wsInsStack = e.wsInsStack[:len(e.wsInsStack)-1]
 				if ws.all {
-					unknown = fnDisplayName(call.Call.StaticCallee())
+					covered := ws.allBut != nil && !ws.allPlain
+					for w := range watch {
+						if !ws.allBut[w] {
+							covered = false
+						}
+					}
+					if !covered {
+						unknown = fnDisplayName(call.Call.StaticCallee())
+						if os.Getenv("VCHECK_WSDEBUG") != "" {
+							fmt.Fprintf(os.Stderr, "preserves: %s: all=%v plain=%v allBut=%v watch=%v\n", unknown, ws.all, ws.allPlain, sortedKeys(ws.allBut), sortedKeys(watch))
+						}
+					}
 				}
 			}
 		}
